@@ -262,6 +262,52 @@ IMPL_SPECS = {
     }
 """,
 }
+# ---- Stmt: the first token's leading trivia and the last token's trailing trivia, per kind of statement
+LU_ = '#[cfg(feature = "luau")] '
+L52_ = '#[cfg(any(feature = "lua52", feature = "luajit"))] '
+# (variant, node type, prefix, leading field, its type, trailing field, its type, cfg)
+STMT_TOKEN_PAIRS = [
+    ("Repeat", "Repeat", "n_rep", "repeat_token", "TokenReference", "until", "Expression", ""),
+    ("Do", "Do", "n_do", "do_token", "TokenReference", "end_token", "TokenReference", ""),
+    ("GenericFor", "GenericFor", "n_gf", "for_token", "TokenReference", "end_token", "TokenReference", ""),
+    ("FunctionDeclaration", "FunctionDeclaration", "n_fd", "function_token", "TokenReference", "body", "FunctionBody", ""),
+    ("LocalFunction", "LocalFunction", "n_lf", "local_token", "TokenReference", "body", "FunctionBody", ""),
+    ("NumericFor", "NumericFor", "n_nf", "for_token", "TokenReference", "end_token", "TokenReference", ""),
+    ("While", "While", "n_wh", "while_token", "TokenReference", "end_token", "TokenReference", ""),
+    ("CompoundAssignment", "full_moon::ast::luau::CompoundAssignment", "n_ca", "lhs", "Var", "rhs", "Expression", LU_),
+    ("ExportedTypeDeclaration", "full_moon::ast::luau::ExportedTypeDeclaration", "n_etd", "export_token", "TokenReference", "type_declaration", "full_moon::ast::luau::TypeDeclaration", LU_),
+    ("ExportedTypeFunction", "full_moon::ast::luau::ExportedTypeFunction", "n_etf", "export_token", "TokenReference", "type_function", "full_moon::ast::luau::TypeFunction", LU_),
+    ("Goto", "full_moon::ast::lua52::Goto", "n_goto", "goto_token", "TokenReference", "label_name", "TokenReference", L52_),
+    ("Label", "full_moon::ast::lua52::Label", "n_label", "left_colons", "TokenReference", "right_colons", "TokenReference", L52_),
+]
+STMT_WHOLE = [("Assignment", ""), ("LocalAssignment", ""), ("FunctionCall", ""), ("If", ""), ("TypeDeclaration", LU_), ("TypeFunction", LU_)]
+STMT_NODE_SPEC = "".join(node_specs(ty, pre, [(lf, lt, "ref"), (tf, tt, "ref")], cfg=cfg, rest=True) for _, ty, pre, lf, lt, tf, tt, cfg in STMT_TOKEN_PAIRS) + """
+// assumed (class C): the implementations for LocalAssignment (cfg_if! blocks with early returns) and the two Luau declarations; their
+// postconditions are opaque here
+pub uninterp spec fn lasg_post(s: LocalAssignment, l: FormatTriviaType, t: FormatTriviaType, r: LocalAssignment) -> bool;
+impl UpdateTrivia for LocalAssignment {
+    open spec fn ut_post(&self, l: FormatTriviaType, t: FormatTriviaType, r: &Self) -> bool { lasg_post(*self, l, t, *r) }
+    #[verifier::external_body] fn update_trivia(&self, leading_trivia: FormatTriviaType, trailing_trivia: FormatTriviaType) -> (r: Self) { unimplemented!() }
+}
+#[cfg(feature = "luau")] pub uninterp spec fn tdecl_post(s: full_moon::ast::luau::TypeDeclaration, l: FormatTriviaType, t: FormatTriviaType, r: full_moon::ast::luau::TypeDeclaration) -> bool;
+#[cfg(feature = "luau")] impl UpdateTrivia for full_moon::ast::luau::TypeDeclaration {
+    open spec fn ut_post(&self, l: FormatTriviaType, t: FormatTriviaType, r: &Self) -> bool { tdecl_post(*self, l, t, *r) }
+    #[verifier::external_body] fn update_trivia(&self, leading_trivia: FormatTriviaType, trailing_trivia: FormatTriviaType) -> (r: Self) { unimplemented!() }
+}
+#[cfg(feature = "luau")] pub uninterp spec fn tfun_post(s: full_moon::ast::luau::TypeFunction, l: FormatTriviaType, t: FormatTriviaType, r: full_moon::ast::luau::TypeFunction) -> bool;
+#[cfg(feature = "luau")] impl UpdateTrivia for full_moon::ast::luau::TypeFunction {
+    open spec fn ut_post(&self, l: FormatTriviaType, t: FormatTriviaType, r: &Self) -> bool { tfun_post(*self, l, t, *r) }
+    #[verifier::external_body] fn update_trivia(&self, leading_trivia: FormatTriviaType, trailing_trivia: FormatTriviaType) -> (r: Self) { unimplemented!() }
+}
+"""
+def stmt_post():
+    arms = []
+    for v, cfg in STMT_WHOLE:
+        arms.append(f"            {cfg}(Stmt::{v}(a), Stmt::{v}(b)) => a.ut_post(l, t, &b),")
+    for v, ty, pre, lf, lt, tf, tt, cfg in STMT_TOKEN_PAIRS:
+        arms.append(f"            {cfg}(Stmt::{v}(a), Stmt::{v}(b)) => {pre}_{lf}(&a).ul_post(l, &{pre}_{lf}(&b)) && {pre}_{tf}(&a).utt_post(t, &{pre}_{tf}(&b)) && {pre}_rest(&b) == {pre}_rest(&a),")
+    return ("    open spec fn ut_post(&self, l: FormatTriviaType, t: FormatTriviaType, r: &Self) -> bool {\n        match (*self, *r) {\n" + "\n".join(arms) + "\n            _ => false,\n        }\n    }\n")
+IMPL_SPECS["Stmt"] = stmt_post()
 IMPL_SPECS.update({
     "FunctionBody:trailing": "    open spec fn utt_post(&self, t: FormatTriviaType, r: &Self) -> bool { n_fb_end_token(self).utt_post(t, &n_fb_end_token(r)) && n_fb_rest(r) == n_fb_rest(self) }\n",
     "Parameter": """    open spec fn ut_post(&self, l: FormatTriviaType, t: FormatTriviaType, r: &Self) -> bool {
@@ -495,6 +541,8 @@ def items():
         macro_impl("If"),
         macro_impl("Assignment"),
         macro_impl("Return"),
+        Raw(STMT_NODE_SPEC, module=M),
+        macro_impl("Stmt"),
         macro_impl("LastStmt", edits=[Hole("r#return", "vx_return", count=2, kind="rewrite", why="the raw identifier `r#return` is renamed: this Verus panics while encoding it (air/src/smt_verify.rs, `discovered_error`)")]),
         Raw(proxy_specs(), module=M),
         Raw(LEMMAS + LEMMAS2, module=M),
@@ -538,4 +586,4 @@ LABELS = {
     "C03.token_both_proxy": dict(props=["C01", "C02", "C03"], text="what the other units assume about update_trivia on a token follows from the verified implementation"),
 }
 
-UNIT = Unit("trivia", items() + [VERIF_MOD], LABELS, macros=[(TRV, "binop_trivia")], feature_sets=("default", "all", "luau"), header=HEADER + "use full_moon::ast::punctuated::Pair;\nuse full_moon::ast::Parameter;\n")
+UNIT = Unit("trivia", items() + [VERIF_MOD], LABELS, macros=[(TRV, "binop_trivia")], feature_sets=("default", "all", "luau", "luajit"), header=HEADER + "use full_moon::ast::punctuated::Pair;\nuse full_moon::ast::Parameter;\n")
